@@ -245,6 +245,64 @@ def gen_types(rng):
     return {rng.randrange(1, 65536) for _ in range(rng.randint(1, 12))}
 
 
+# ------------------------------------------------------------------ character-strings at the length boundary
+# octets that expand under escaping: \\DDD (4 characters) for controls / DEL / high octets, \\" and \\\\ (2 characters);
+# a legal string of <= 255 octets then has a text of up to 1020 characters
+EXPANDING = [bytes(range(0, 32)) + bytes(range(127, 256)), b'"\\', bytes([0]), bytes([255]), bytes([200, 34, 92, 7])]
+BOUNDARY_LENGTHS = [63, 64, 65, 85, 86, 127, 128, 129, 254, 255]
+
+
+def independent_escape(b):
+    """RFC 1035 5.1 text of an octet string, written without the library"""
+    return "".join("\\" + chr(c) if c in (34, 92) else chr(c) if 32 <= c < 127 else "\\%03d" % c for c in b)
+
+
+def boundary_strings(rng, full=False):
+    """octet strings of 63..255 octets whose escaped text is longer than 255 characters (and the
+    printable controls of the same lengths)"""
+    out = []
+    lengths = BOUNDARY_LENGTHS if full else [64, 128, 255, rng.choice(BOUNDARY_LENGTHS)]
+    for n in lengths:
+        for pool in (EXPANDING if full else [EXPANDING[0], EXPANDING[1], rng.choice(EXPANDING)]):
+            out.append(bytes(rng.choice(pool) for _ in range(n)))
+        # printable with a single quote / backslash (255 octets -> 256 characters)
+        b = bytearray(rng.randrange(97, 123) for _ in range(n))
+        b[rng.randrange(n)] = rng.choice(b'"\\')
+        out.append(bytes(b))
+        out.append(bytes(rng.randrange(97, 123) for _ in range(n)))
+    return out
+
+
+def cs(b):
+    return bytes([len(b)]) + b
+
+
+def charstring_values(rng, full=False):
+    """(rdclass, rdtype, wire) of every type with counted / quoted strings, the strings at the length boundary
+    and made of octets that expand under escaping; built from octets only (no library text code)"""
+    T = dns.rdatatype
+    name = b"\x01x\x07example\x00"
+    short = [b"", b"a", b"\x00", b'"']
+    for s in boundary_strings(rng, full):
+        o = rng.choice(short + [s])
+        yield int(IN), int(T.HINFO), cs(s) + cs(o)
+        yield int(IN), int(T.HINFO), cs(o) + cs(s)
+        yield int(IN), int(T.X25), cs(s)
+        yield int(IN), int(T.ISDN), cs(s) + (cs(o) if o else b"")
+        yield int(IN), int(T.ISDN), cs(o or b"1") + cs(s)
+        yield int(IN), int(T.NAPTR), b"\x00\x01\x00\x02" + cs(s) + cs(o) + cs(b"") + name
+        yield int(IN), int(T.NAPTR), b"\x00\x01\x00\x02" + cs(o) + cs(s) + cs(o) + name
+        yield int(IN), int(T.NAPTR), b"\xff\xff\x00\x00" + cs(b"") + cs(o) + cs(s) + b"\x00"
+        yield int(IN), int(T.CAA), b"\x80" + cs(b"issue") + s
+        yield int(IN), int(T.CAA), b"\x00" + cs(b"x") + s + s + s
+        yield int(IN), int(T.URI), b"\x00\x01\x00\x02" + s
+        yield int(IN), int(T.URI), b"\x00\x01\x00\x02" + s + s
+        for t in (T.TXT, T.SPF, T.AVC, T.NINFO, T.RESINFO, T.WALLET):
+            if full or t == T.TXT or rng.random() < 0.2:
+                yield int(IN), int(t), cs(s)
+                yield int(IN), int(t), cs(o) + cs(s) + cs(s)
+
+
 def structured_values(rng, n):
     """(rdclass, rdtype, wire) of values built without the library's text or bitmap code"""
     nxt = b"\x01x\x07example\x00"
@@ -296,6 +354,8 @@ def record_cases(ctx):
     ntext = ctx.n(4, 100)
     for rdclass, rdtype, w in structured_values(rng, ctx.n(25, 600)):
         yield "rd-structured", [100, rdclass, rdtype, w, rng.randrange(2)]
+    for rdclass, rdtype, w in charstring_values(rng, full=not ctx.quick):
+        yield "rd-charstring", [100, rdclass, rdtype, w, rng.randrange(2)]
     for rdclass, rdtype, w in ctor_values(rng, ctx.n(3, 60)):
         yield "rd-ctor", [100, rdclass, rdtype, w, rng.randrange(2)]
     for rdclass, rdtype in types:
